@@ -197,8 +197,9 @@ func (p shPoint) build() (scriggo.Files, string, string) {
 	return fs, "index.html", "ok " + want
 }
 
-// Known finding local-shadow-of-imported-macro-in-closure
-// (fixes/C16-local-shadow-of-imported-macro-in-closure.NOT-APPLIED.md): emitCallNode takes the direct-call
+// Former finding local-shadow-of-imported-macro-in-closure, repaired by d12f88d (second fix series,
+// fixes/C16-local-shadow-of-imported-macro-in-closure.md); the class below is inactive without an entry in
+// known_findings.json: every failing point of the matrix is then a violation. emitCallNode took the direct-call
 // branch when the callee identifier is not declared in the *current function builder*; a local of an
 // enclosing function (an upvar of the closure) that shadows a macro of the package table — an imported
 // macro, the child's macro in a layout — is therefore ignored inside a macro / function literal declared
@@ -276,8 +277,8 @@ func shadowFamily(c *hx.Ctx) {
 
 // ---------------------------------------------------------------- a local named like the package of a qualified import
 
-// Known finding local-shadows-import-package-name
-// (fixes/C16-local-shadows-import-package-name.NOT-APPLIED.md): `{% import lib "lib.html" %}` and, in an
+// Former finding local-shadows-import-package-name, repaired by fb3867f (second fix series,
+// fixes/C16-local-shadows-import-package-name.md; class inactive without an entry in known_findings.json): `{% import lib "lib.html" %}` and, in an
 // inner scope, a local `lib` with fields: the type checker resolves `lib.Item` / `lib.V` to the local's
 // field, the emitter looks `"lib.Item"` / `"lib.V"` up in the package tables first (emitCallNode's selector
 // branch, emitExpr's selector case, varStore.nonLocalVarIndex) and takes the imported declaration.
